@@ -132,3 +132,49 @@ def is_queue_receiver(f, sl, operand):
     # a queue handed in by reference (parameter), not a local vector being built (WAL replay in IndexWriter::new)
     return l is not None and "Vec<searchlite_core::api::writer::PendingOp>" in f.local_ty(l).replace("alloc::vec::", "") and \
         bool(sl.args(operand)) and "&mut" in f.local_ty(l)
+
+
+def column_slots_rule(ctx, P, rid):
+    """Shared by C08 / C12 / C10 (their per-document reads of fast-field columns are only right if slot i belongs to document i)."""
+    import re
+    from sa.prog import Site, callee_of, op_local
+    ctx.rule(rid, "SLOT PRESERVATION (writer side of the fast-field columns): a column has one slot per document ordinal, and filters, "
+                  "aggregations and sorts read slot i for document i. In the column-building code of index::fastfields (everything that "
+                  "is not a FastFieldsReader method or a decode function) no iterator over per-document slots (items of type Option<T> "
+                  "or Vec<T>) goes through an adapter that can drop or reorder items (filter, filter_map, flatten, flat_map, skip*, "
+                  "take*, step_by, rev) and no slot vector is dedup'ed / retain'ed: converting a single-valued column to its list form "
+                  "must map slot to slot")
+    FORB = re.compile(r"Iterator::(filter|filter_map|flatten|flat_map|skip|skip_while|take|take_while|step_by|rev)$|::(dedup|dedup_by|dedup_by_key|retain|retain_mut|swap_remove)$")
+    SLOT = re.compile(r"(IntoIter|Iter(Mut)?|Drain)<('[_a-z]+, )?(core::option::Option<|alloc::vec::Vec<)|Vec<(core::option::Option<|alloc::vec::Vec<)")
+    n_fn, n_map = 0, 0
+    for q, f in sorted(P.fns.items()):
+        if f.crate != "searchlite_core" or "index::fastfields" not in q or is_test_or_bench(f):
+            continue
+        root = f
+        while root.kind == "closure" and root.parent and P.fn(root.parent):
+            root = P.fn(root.parent)
+        rs = root.short
+        if "FastFieldsReader" in rs or re.search(r"::(read_|decode|parse|doc_range|object_range|case_insensitive)", rs):
+            continue
+        n_fn += 1
+        bad = []
+        for b, t in f.calls():
+            cal = callee_of(t)
+            if not t["args"] or op_local(t["args"][0]) is None:
+                continue
+            ty = f.local_ty(op_local(t["args"][0]))
+            if not SLOT.search(ty):
+                continue
+            if cal.endswith("Iterator::map"):
+                n_map += 1
+            if FORB.search(cal):
+                bad.append((Site(f, b), cal.rsplit("::", 1)[1]))
+        if bad:
+            ctx.saw(f)
+        ctx.ob(rid, "%s:%s" % (rid, re.sub(r"\{closure#\d+\}", "{closure}", f.short)), not bad,
+               "per-document slots are only mapped one to one" if not bad else
+               "%s applies `%s` to an iterator over per-document slots at %s: documents without a value lose their slot and every later "
+               "document's value moves to an earlier document ordinal" % (f.short, bad[0][1], bad[0][0].loc()),
+               bad[0][0].loc() if bad else "%s:%s" % (f.file, f.line)) if bad or f.kind != "closure" else None
+    ctx.floor(rid, n_fn, 5, "column-building functions in index::fastfields")
+    ctx.floor(rid + ".detector", n_map, 3, "slot-to-slot `map` conversions seen by the same detector (scalar -> list upgrades)")
